@@ -7,6 +7,11 @@ package logx
 // reads the directory back (gunzipping compressed backups) and records which record ids are in
 // which file.  The driver judges nothing: spec/RotateLogTrace.tla decides.
 //
+// Family "config" (cfg.via = "config"): the writers are built the way the logging configuration
+// builds them - newFileWriter(Config{Path, Rotation, MaxSize (MB), MaxBackups, KeepDays,
+// Compress}), i.e. handleOptions + createOutput, as Setup(Mode "file") does - and the access-log
+// RotateLogger it returns is driven; the relation is evaluated against the CONFIGURED values.
+//
 // In-package only for: a SizeLimitRotateRule with a maximum in bytes (the public constructor
 // takes megabytes) and DailyRotateRule.rotatedTime (simulated day change).  The logger is given
 // a driver-supplied RotateRule that delegates ShallRotate / MarkRotated / OutdatedFiles to the
@@ -46,12 +51,13 @@ type c19Cfg struct {
 	Names      string // "counter" | "real"
 	Pre        []int  // ages of the pre-existing backups, hours
 	PreCur     int    // bytes already in the current file
+	Via        string // "" = NewLogger with a rule built directly | "config" = newFileWriter(Config): the logging configuration path
 }
 
 func c19ParseCfg(m kit.M) c19Cfg {
 	c := c19Cfg{Rule: kit.Str(m["rule"]), MaxSize: kit.Num(m["maxSize"]), MaxBackups: kit.Num(m["maxBackups"]),
 		Days: kit.Num(m["days"]), Gzip: kit.Bool(m["gzip"]), Delim: kit.Str(m["delim"]), Names: kit.Str(m["names"]),
-		PreCur: kit.Num(m["precur"])}
+		PreCur: kit.Num(m["precur"]), Via: kit.Str(m["via"])}
 	for _, a := range kit.List(m["pre"]) {
 		c.Pre = append(c.Pre, kit.Num(a))
 	}
@@ -110,6 +116,7 @@ type c19World struct {
 	lg       *RotateLogger
 	base     int
 	sent     int64
+	ignore   map[string]bool // other log files of the configuration (never written by the driver)
 }
 
 var c19Line = regexp.MustCompile(`^#(\d+) x*$`)
@@ -248,6 +255,9 @@ func (w *c19World) observe() (kit.M, error) {
 			obs["cur"], obs["cb"] = recs, len(data)
 			continue
 		}
+		if w.ignore[e.Name()] {
+			continue
+		}
 		ts, ageh, gz, ok := w.parseName(e.Name())
 		if !ok || seen[ts] {
 			alien++
@@ -303,6 +313,13 @@ func runC19Case(c kit.Case, root string, tr *kit.Tracer, rep *kit.Reporter) (v k
 	}
 	defer os.RemoveAll(w.dir)
 	w.filename = filepath.Join(w.dir, "app.log")
+	if w.cfg.Via == "config" {
+		w.filename = filepath.Join(w.dir, accessFilename)
+		w.ignore = map[string]bool{errorFilename: true, severeFilename: true, slowFilename: true, statFilename: true}
+		if w.cfg.Names != "real" || w.cfg.Delim != backupFileDelimiter {
+			return infra(fmt.Errorf("the config family uses the real backup names and delimiter"))
+		}
+	}
 	w.ext = filepath.Ext(w.filename)
 	w.prefix = strings.TrimSuffix(filepath.Base(w.filename), w.ext)
 	w.now0 = time.Now()
@@ -346,34 +363,70 @@ func runC19Case(c kit.Case, root string, tr *kit.Tracer, rep *kit.Reporter) (v k
 
 	// the real rule, wrapped
 	rule := &c19Rule{w: w, sig: make(chan struct{}, 1)}
-	switch w.cfg.Rule {
-	case "size":
-		if w.cfg.MaxSize > 0 && w.cfg.MaxSize%megaBytes == 0 {
-			rule.inner = NewSizeLimitRotateRule(w.filename, w.cfg.Delim, w.cfg.Days, w.cfg.MaxSize/megaBytes, w.cfg.MaxBackups, w.cfg.Gzip)
-			rep.Count("rule_size_public_ctor", 1)
-		} else {
-			r := NewSizeLimitRotateRule(w.filename, w.cfg.Delim, w.cfg.Days, 1, w.cfg.MaxBackups, w.cfg.Gzip).(*SizeLimitRotateRule)
-			r.maxSize = int64(w.cfg.MaxSize)
-			rule.inner = r
-		}
-	case "daily":
-		r := DefaultRotateRule(w.filename, w.cfg.Delim, w.cfg.Days, w.cfg.Gzip).(*DailyRotateRule)
-		rule.inner, rule.daily = r, r
-	default:
-		return infra(fmt.Errorf("unknown rule %q", w.cfg.Rule))
-	}
 	w.rule = rule
-	w.base = runtime.NumGoroutine()
-	lg, err := NewLogger(w.filename, rule, w.cfg.Gzip)
-	if err != nil {
-		return infra(err)
+	var lg *RotateLogger
+	closeAll := func() error { return lg.Close() }
+	if w.cfg.Via == "config" {
+		// the logging configuration path: options + createOutput for the five log files
+		conf := Config{Path: w.dir, Rotation: w.cfg.Rule, KeepDays: w.cfg.Days, MaxBackups: w.cfg.MaxBackups,
+			Compress: w.cfg.Gzip, StackCooldownMillis: 100}
+		if w.cfg.MaxSize%megaBytes != 0 {
+			return infra(fmt.Errorf("config family: maxSize must be whole megabytes"))
+		}
+		conf.MaxSize = w.cfg.MaxSize / megaBytes
+		options = logOptions{} // the option set is package-global: start from the defaults
+		w.base = runtime.NumGoroutine()
+		wr, err := newFileWriter(conf)
+		if err != nil {
+			return infra(err)
+		}
+		cw, ok := wr.(*concreteWriter)
+		if !ok {
+			return infra(fmt.Errorf("newFileWriter returned %T", wr))
+		}
+		if lg, ok = cw.infoLog.(*RotateLogger); !ok {
+			return infra(fmt.Errorf("access log is a %T", cw.infoLog))
+		}
+		if lg.filename != w.filename {
+			return infra(fmt.Errorf("access log file is %s, expected %s", lg.filename, w.filename))
+		}
+		// keep the rule createOutput built; only put the barrier-recognising wrapper in front of it
+		// (the writer goroutine is idle: nothing has been written yet)
+		rule.inner = lg.rule
+		rule.daily, _ = lg.rule.(*DailyRotateRule)
+		lg.rule = rule
+		closeAll = wr.Close
+		w.base += 5
+		rep.Count("config_path_"+w.cfg.Rule, 1)
+	} else {
+		switch w.cfg.Rule {
+		case "size":
+			if w.cfg.MaxSize > 0 && w.cfg.MaxSize%megaBytes == 0 {
+				rule.inner = NewSizeLimitRotateRule(w.filename, w.cfg.Delim, w.cfg.Days, w.cfg.MaxSize/megaBytes, w.cfg.MaxBackups, w.cfg.Gzip)
+				rep.Count("rule_size_public_ctor", 1)
+			} else {
+				r := NewSizeLimitRotateRule(w.filename, w.cfg.Delim, w.cfg.Days, 1, w.cfg.MaxBackups, w.cfg.Gzip).(*SizeLimitRotateRule)
+				r.maxSize = int64(w.cfg.MaxSize)
+				rule.inner = r
+			}
+		case "daily":
+			r := DefaultRotateRule(w.filename, w.cfg.Delim, w.cfg.Days, w.cfg.Gzip).(*DailyRotateRule)
+			rule.inner, rule.daily = r, r
+		default:
+			return infra(fmt.Errorf("unknown rule %q", w.cfg.Rule))
+		}
+		w.base = runtime.NumGoroutine()
+		var err error
+		if lg, err = NewLogger(w.filename, rule, w.cfg.Gzip); err != nil {
+			return infra(err)
+		}
+		w.base++
 	}
 	w.lg = lg
-	w.base++
 	closed := false
 	defer func() {
 		if !closed {
-			lg.Close()
+			closeAll()
 		}
 	}()
 	lastStart := time.Now()
@@ -431,6 +484,9 @@ func runC19Case(c kit.Case, root string, tr *kit.Tracer, rep *kit.Reporter) (v k
 					seenTs[ts] = true
 					lastStart = time.Now()
 					rep.Count("rotations_seen", 1)
+					if w.cfg.Via == "config" {
+						rep.Count("config_path_rotations", 1)
+					}
 				}
 			}
 			obs["ev"], obs["id"], obs["size"] = "write", id, size
@@ -443,9 +499,13 @@ func runC19Case(c kit.Case, root string, tr *kit.Tracer, rep *kit.Reporter) (v k
 			tr.Emit(kit.M{"ev": "daychange"})
 			rep.Count("daychanges", 1)
 		case "close":
-			cerr := lg.Close()
+			cerr := closeAll()
 			closed = true
-			w.base--
+			if w.cfg.Via == "config" {
+				w.base -= 5
+			} else {
+				w.base--
+			}
 			if !kit.WaitGoroutines(w.base, 30*time.Second) {
 				return infra(fmt.Errorf("goroutines did not settle after Close\n%s", kit.Stacks()))
 			}
